@@ -5,6 +5,7 @@ import (
 	"github.com/db47h/decimal"
 	"math"
 	"math/big"
+	"runtime/debug"
 	"strconv"
 	"strings"
 	"testing"
@@ -435,6 +436,78 @@ func TestC13Grid(t *testing.T) {
 		}
 	}
 	h.AddExtra("C13", "giant_f_cases", n)
+	if h.Thorough() {
+		h.AddExtra("C13", "giant_range_end_cases", c13RangeEnds(t))
+	}
+}
+
+// c13RangeEnds (thorough tier: 6.5 GB, 10 s): the two ends of what Text('f') can be asked. (a) 0.99..9 (2147483664
+// nines) x 10^MaxExp printed with 0 fractional digits rounds up to 10^MaxExp, which is not a Decimal but a perfectly
+// good text: a 1 followed by MaxExp zeros (F-41: one zero was missing); the e format of the same value for
+// comparison. (b) 0.4999..95 with MaxPrec digits, ToNearestAway, printed with 0 fractional digits is "0" (F-42: the
+// temporary of MinPrec+1 digits did not exist, the value was rounded to 0.5 first and printed as 1), and its mirror
+// image 0.5000..05 under ToNearestEven is "1".
+func c13RangeEnds(t *testing.T) int {
+	defer debug.FreeOSMemory()
+	fail := func(class, msg string, c interface{}) {
+		h.ReportGridFail(t, "C13", h.Failf(class, "%s", msg), mustJSON(c))
+	}
+	{
+		const words = 113025456 // 2147483664 digits
+		m := make([]decimal.Word, words)
+		for i := range m {
+			m[i] = decimal.Word(h.Base - 1)
+		}
+		x := new(decimal.Decimal).SetPrec(words * 19)
+		x.SetBitsExp(m, math.MaxInt32)
+		if x.IsInf() || x.MinPrec() != words*19 {
+			t.Fatalf("INFRA: giant all-nines value not as constructed")
+		}
+		if got := x.Text('e', 3); got != "1.000e+2147483647" {
+			fail("giant-carry", fmt.Sprintf("Text('e', 3) of 0.(2147483664 nines)e2147483647 = %q", h.FirstN(got, 60)), "carry-e")
+		}
+		b := x.Append(nil, 'f', 0)
+		ok := len(b) == 1+math.MaxInt32 && b[0] == '1'
+		for i := 1; ok && i < len(b); i++ {
+			ok = b[i] == '0'
+		}
+		if !ok {
+			fail("giant-carry", fmt.Sprintf("Text('f', 0) of 0.(2147483664 nines)e2147483647 has %d bytes starting %q; want a 1 followed by 2147483647 zeros", len(b), h.FirstN(string(b[:min(len(b), 8)]), 8)), "carry-f")
+		}
+		b, m, x = nil, nil, nil
+		debug.FreeOSMemory()
+	}
+	for _, tc := range []struct {
+		top, low uint64
+		mode     decimal.RoundingMode
+		want     string
+	}{
+		{4999999999999999999, 9999500000000000000, decimal.ToNearestAway, "0"},
+		{5000000000000000000, 500000000000000, decimal.ToNearestEven, "1"},
+	} {
+		const words = 226050911 // MaxPrec + 14 digit positions
+		m := make([]decimal.Word, words)
+		fill := decimal.Word(h.Base - 1)
+		if tc.want == "1" {
+			fill = 0
+		}
+		for i := range m {
+			m[i] = fill
+		}
+		m[words-1], m[0] = decimal.Word(tc.top), decimal.Word(tc.low)
+		x := new(decimal.Decimal).SetPrec(decimal.MaxPrec)
+		x.SetBitsExp(m, 0)
+		x.SetMode(tc.mode)
+		if x.MinPrec() != decimal.MaxPrec || x.Acc() != decimal.Exact {
+			t.Fatalf("INFRA: MaxPrec-digit value not as constructed (MinPrec %d)", x.MinPrec())
+		}
+		if got := x.Text('f', 0); got != tc.want {
+			fail("giant-leading-digit", fmt.Sprintf("Text('f', 0) of a %d-digit value with top word %d under %v = %q, want %q", uint(decimal.MaxPrec), tc.top, tc.mode, h.FirstN(got, 20), tc.want), tc)
+		}
+		m, x = nil, nil
+		debug.FreeOSMemory()
+	}
+	return 4
 }
 
 func firstDiff(a, b string) int {
